@@ -401,7 +401,7 @@ func (e *Env) RFragOrder() {
 	// (link() itself, and the helpers that a retry sequence may have been moved into)
 	var searchUsers []*ast.FuncDecl
 	for _, d := range load.AllFuncDecls(pkg) {
-		if d.Body != nil && d.Recv != nil && strings.HasSuffix(e.Prog.File(d.Pos()), "decorator-fragment.go") {
+		if d.Body != nil && d.Recv != nil && recvNamed(d) == "fileDecorator" && !strings.HasSuffix(e.Prog.File(d.Pos()), "-generated.go") {
 			searchUsers = append(searchUsers, d)
 		}
 	}
@@ -805,6 +805,7 @@ func (e *Env) RPhysicalLines() {
 func (e *Env) RTextExtent() {
 	pkg := e.Prog.Pkg(load.PkgDecorator)
 	info := pkg.TypesInfo
+	restoreHelpers := e.restoreOnly(pkg)
 	n := 0
 	isText := func(x ast.Expr) bool {
 		se, ok := ast.Unparen(x).(*ast.SelectorExpr)
@@ -818,7 +819,7 @@ func (e *Env) RTextExtent() {
 		return ok && b.Kind() == types.String
 	}
 	for _, fd := range load.AllFuncDecls(pkg) {
-		if fd.Body == nil || strings.HasPrefix(filepathBase(e.Prog.File(fd.Pos())), "restorer") {
+		if fd.Body == nil || isRestorePath(fd) || restoreHelpers[fd] {
 			continue
 		}
 		ast.Inspect(fd.Body, func(nd ast.Node) bool {
@@ -964,13 +965,13 @@ func (e *Env) RSpacingMax() {
 	c := e.Sib.Ctx[load.PkgDecorator]
 	n := 0
 	for _, fd := range load.AllFuncDecls(pkg) {
-		if fd.Body == nil || fd.Recv == nil || !strings.HasSuffix(e.Prog.File(fd.Pos()), "decorator-fragment.go") {
+		if fd.Body == nil || fd.Recv == nil || recvNamed(fd) != "fileDecorator" || strings.HasSuffix(e.Prog.File(fd.Pos()), "-generated.go") {
 			continue
 		}
 		var stores []*ast.AssignStmt
 		ast.Inspect(fd.Body, func(nd ast.Node) bool {
 			as, ok := nd.(*ast.AssignStmt)
-			if !ok || len(as.Lhs) != 1 || len(as.Rhs) != 1 || as.Tok != token.ASSIGN {
+			if !ok || len(as.Lhs) != 1 || len(as.Rhs) != 1 || as.Tok == token.DEFINE {
 				return true
 			}
 			ix, ok := ast.Unparen(as.Lhs[0]).(*ast.IndexExpr)
@@ -995,6 +996,28 @@ func (e *Env) RSpacingMax() {
 			elem, val := c.ExprStr(as.Lhs[0]), c.ExprStr(as.Rhs[0])
 			pc, okp := pathCond(c, fd.Body.List, as)
 			key := fmt.Sprintf("%s: the spacing of a node is the largest line break found next to it (%s)", load.FuncName(fd), elem)
+			if as.Tok != token.ASSIGN {
+				// an operator assignment: the table holds SpaceType values (None < NewLine <
+				// EmptyLine), combining two of them arithmetically or bitwise is not their maximum
+				e.Run.Violation("R-FRAG", key, e.Prog.Pos(as.Pos()), "`"+elem+" "+as.Tok.String()+" "+val+"` combines the recorded spacing with the new one by an operator: for an empty line followed by a plain line break (three line breaks in a row) the result is neither of the two (NewLine "+strings.TrimSuffix(as.Tok.String(), "=")+" EmptyLine is no SpaceType the restorer renders), the line breaks next to the node are lost")
+				continue
+			}
+			if call, ok := ast.Unparen(as.Rhs[0]).(*ast.CallExpr); ok {
+				if id, ok := call.Fun.(*ast.Ident); ok && id.Name == "max" {
+					if _, isB := info.Uses[id].(*types.Builtin); isB {
+						has := false
+						for _, a := range call.Args {
+							if c.ExprStr(a) == elem {
+								has = true
+							}
+						}
+						if has {
+							e.Run.OK("R-FRAG", key, e.Prog.Pos(as.Pos()), "stored through the max builtin together with the recorded value")
+							continue
+						}
+					}
+				}
+			}
 			un, dec := unsatWith(pc, "!("+elem+" < "+val+")")
 			if !okp || !dec {
 				e.Run.Undecided("R-FRAG", key, e.Prog.Pos(as.Pos()), "condition not propositional: "+pc)
@@ -1212,6 +1235,21 @@ func (e *Env) RBlankLine() {
 	e.Run.Check("R-SCAN", "fragment: whether a line is empty is not decided by a fixed byte distance", at, why == "",
 		"an empty-line fragment is emitted when "+why+": only a line that consists of the single byte \"\\n\" is recognised; an empty line written \"\\r\\n\" (CRLF files) or holding blanks is decorated as an ordinary line break — import groups merge and are sorted as one (tokens reordered, a path imported in two groups dropped), a free-standing comment becomes a doc comment and go/printer reformats its text")
 	e.Run.Floor("R-SCAN", "sites that emit an empty-line fragment", n, 1)
+}
+
+// recvNamed: the name of the receiver's type ("" for a function).
+func recvNamed(fd *ast.FuncDecl) string {
+	if fd.Recv == nil || len(fd.Recv.List) != 1 {
+		return ""
+	}
+	t := fd.Recv.List[0].Type
+	if st, ok := t.(*ast.StarExpr); ok {
+		t = st.X
+	}
+	if id, ok := t.(*ast.Ident); ok {
+		return id.Name
+	}
+	return ""
 }
 
 func filepathBase(p string) string {
